@@ -17,8 +17,9 @@ variable {ev : Leaf → Bool} {G : Leaf → Prop}
 
 /-- what the reduction theorem needs from the other developments, at one environment (leaf truth `ev`,
 interpreter `py`) and one Python range `pc` that admits `py`.  `G` is the leaf invariant of the simplifier's
-soundness; `P` is an additional shape the python leaves of the *input* marker have (the results need not) -/
-structure ReduceCtx (ev : Leaf → Bool) (G P : Leaf → Prop) (pc : VC) (py : Version) : Prop where
+soundness; `P` is an additional shape the python leaves of the *input* marker have (the results need not); `W` is
+the class of constraints on which C12's two answers are used (what `get_python_constraint_from_marker` returns) -/
+structure ReduceCtx (ev : Leaf → Bool) (G P : Leaf → Prop) (W : VC → Prop) (pc : VC) (py : Version) : Prop where
   /-- C07's leaf specification (marker equality and leaf merging respect truth) -/
   spec : LeafSpec ev G
   /-- the variables of the leaves are spelt canonically (true of what `SingleMarker.__init__` stores;
@@ -28,18 +29,18 @@ structure ReduceCtx (ev : Leaf → Bool) (G P : Leaf → Prop) (pc : VC) (py : V
   reparse : ReparseNames
   /-- C11 `pyConstraint_exact` for a single-marker-like -/
   gpcLeaf_exact : ∀ (l : Leaf) (c : VC), G l → P l → isPyName l.name = true → gpcLeaf l = .ok c →
-    c.allowsPlain py = ev l
+    W c ∧ c.allowsPlain py = ev l
   /-- C11 `pyConstraint_exact` (the direction used) for python-only markers -/
   gpc_lower : ∀ (u : M) (g : VC), M.Good G u → (∀ n ∈ M.vars u, n ∈ pyNames) → gpc u = .ok g →
-    g.allowsPlain py = true → M.sem ev u = true
+    W g ∧ (g.allowsPlain py = true → M.sem ev u = true)
   /-- C12 containment / overlap soundness at the probe `py` -/
-  allowsAll_sound : ∀ c : VC, c.allowsAll pc = .ok true → c.allowsPlain py = true
-  allowsAny_sound : ∀ c : VC, c.allowsAny pc = .ok false → c.allowsPlain py = true → False
+  allowsAll_sound : ∀ c : VC, W c → c.allowsAll pc = .ok true → c.allowsPlain py = true
+  allowsAny_sound : ∀ c : VC, W c → c.allowsAny pc = .ok false → c.allowsPlain py = true → False
   /-- C11 `createNested_exact` through poetry's own parser, at a range admitting `py` -/
   nested_true : ∀ (txt : String) (pm : M), createNestedMarker "python_version" pc = .ok txt → parseMarker txt = .ok pm →
     M.Good G pm ∧ M.sem ev pm = true
 
-theorem Leaf.reduce_exact {P : Leaf → Prop} {pc : VC} {py : Version} (C : ReduceCtx ev G P pc py)
+theorem Leaf.reduce_exact {P : Leaf → Prop} {W : VC → Prop} {pc : VC} {py : Version} (C : ReduceCtx ev G P W pc py)
     (l : Leaf) (r : M) (hg : G l) (hP : P l) (h : Leaf.reduce l pc = .ok r) : M.Good G r ∧ M.sem ev r = ev l := by
   cases l with
   | amulti n c => simp [Leaf.reduce, pure, Except.pure] at h; subst h; exact ⟨by simpa using hg, by simp⟩
@@ -51,14 +52,14 @@ theorem Leaf.reduce_exact {P : Leaf → Prop} {pc : VC} {py : Version} (C : Redu
       split at h
       · cases h
       · rename_i c hc
-        have hex := C.gpcLeaf_exact (.single s) c hg hP hp hc
+        obtain ⟨hw, hex⟩ := C.gpcLeaf_exact (.single s) c hg hP hp hc
         split at h
         · cases h
         · rename_i ball hall
           by_cases hb : ball = true
           · subst hb
             simp [pure, Except.pure] at h; subst h
-            have := C.allowsAll_sound c hall
+            have := C.allowsAll_sound c hw hall
             rw [hex] at this
             refine ⟨by simp, ?_⟩
             simp only [M.sem]; exact this.symm
@@ -75,7 +76,7 @@ theorem Leaf.reduce_exact {P : Leaf → Prop} {pc : VC} {py : Version} (C : Redu
                 simp only [M.sem]
                 cases hev : ev (.single s) with
                 | false => rfl
-                | true => exact (C.allowsAny_sound c hany (by rw [hex, hev])).elim
+                | true => exact (C.allowsAny_sound c hw hany (by rw [hex, hev])).elim
               | true =>
                 simp only [Bool.not_true, Bool.false_eq_true, if_false] at h
                 split at h
@@ -96,7 +97,7 @@ theorem Leaf.reduce_exact {P : Leaf → Prop} {pc : VC} {py : Version} (C : Redu
     · simp [hp, pure, Except.pure] at h; subst h; exact ⟨by simpa using hg, by simp⟩
 
 mutual
-theorem reduce_exact_aux {P : Leaf → Prop} {pc : VC} {py : Version} (C : ReduceCtx ev G P pc py)
+theorem reduce_exact_aux {P : Leaf → Prop} {W : VC → Prop} {pc : VC} {py : Version} (C : ReduceCtx ev G P W pc py)
     (m r : M) (hgp : M.Good (fun l => G l ∧ P l) m) (h : M.reduce pc m = .ok r) :
     M.Good G r ∧ M.sem ev r = M.sem ev m := by
   have hg : M.Good G m := M.good_mono (fun l hl => hl.1) m hgp
@@ -153,7 +154,8 @@ theorem reduce_exact_aux {P : Leaf → Prop} {pc : VC} {py : Version} (C : Reduc
                     rw [beq_vars _ _ this] at hnm
                     exact only_mentions_thm C.reparse C.spec C.canon pyNames m o
                       ((M.goodAll_iff ms).1 hgl m (hmem m hm).1) ho n hnm
-                have hsu := C.gpc_lower u g (unionOf_sound C.spec hgp hu).1 hvars hg' (C.allowsAll_sound g hsc)
+                obtain ⟨hwg, hlow⟩ := C.gpc_lower u g (unionOf_sound C.spec hgp hu).1 hvars hg'
+                have hsu := hlow (C.allowsAll_sound g hwg hsc)
                 rw [(unionOf_sound C.spec hgp hu).2] at hsu
                 obtain ⟨m, hm, hs⟩ := semAny_exists ev pyOnly hsu
                 simp only [M.sem]
@@ -167,7 +169,7 @@ theorem reduce_exact_aux {P : Leaf → Prop} {pc : VC} {py : Version} (C : Reduc
           have hl := reduce_exact_list C ms xs (by simpa [M.Good] using hgp) hx
           have hs := unionOf_sound C.spec hl.1 h
           exact ⟨hs.1, by rw [hs.2, hl.2.2]; simp only [M.sem]⟩
-theorem reduce_exact_list {P : Leaf → Prop} {pc : VC} {py : Version} (C : ReduceCtx ev G P pc py)
+theorem reduce_exact_list {P : Leaf → Prop} {W : VC → Prop} {pc : VC} {py : Version} (C : ReduceCtx ev G P W pc py)
     (ms xs : List M) (hg : M.GoodAll (fun l => G l ∧ P l) ms) (h : M.reduceList pc ms = .ok xs) :
     M.GoodAll G xs ∧ M.semAll ev xs = M.semAll ev ms ∧ M.semAny ev xs = M.semAny ev ms := by
   cases ms with
